@@ -615,6 +615,7 @@ type runResult struct {
 	firstOpen int // index of the write that created the first segment (-1 if none)
 	hashes    map[string][32]byte
 	panics    []string
+	slow      []slowObs // slow-reader leg
 }
 
 func mkTracks(h *history) []*gohlslib.Track {
